@@ -4,6 +4,7 @@ import Gotree.Model.C03Ops
 import Gotree.Model.C07
 import Gotree.Model.C16
 import Gotree.Model.C17
+import Gotree.Model.C01
 
 namespace Gotree.Driver.C03
 open Gotree Gotree.Driver Gotree.C03
@@ -90,7 +91,7 @@ def edgeIdAt (t : T) (p : Path) : Option Int :=
 def isRenaming (n : String) : Bool :=
   ["renameauto", "renameregex", "addquotes", "rmquotes", "shuffle"].contains n
 
-def modelOf (op extra : String) (inSync : Bool) (tb : T) : ModelRes :=
+def modelOf (op extra : String) (inSync sizesOK : Bool) (tb : T) : ModelRes :=
   -- trees with fewer than 3 tips are outside the quantifier of the operation models (C05 … C17)
   if tb.tipNames.length < 3 then .skip "small" else
   -- the operation models assume unique, non-empty tip names (a regexp renaming can produce others)
@@ -112,9 +113,9 @@ def modelOf (op extra : String) (inSync : Bool) (tb : T) : ModelRes :=
     | none => .noModel
   | ["outgroup", rm, strict, names] =>
     match parseStrList names with
-    | some l => ofRes (Gotree.C05.rerootOutGroup (flagOf rm) (flagOf strict) l tb)
+    | some l => ofRes (applyOp (.outgroup (flagOf rm) (flagOf strict) l) tb)
     | none => .noModel
-  | ["midpoint"] => ofRes (Gotree.C05.rerootMidPoint tb)
+  | ["midpoint"] => ofRes (applyOp .midpoint tb)
   | ["rerootfirst"] => ofRes (applyOp .rerootFirst tb)
   | ["subtree", p] =>
     match parsePath p with
@@ -130,7 +131,12 @@ def modelOf (op extra : String) (inSync : Bool) (tb : T) : ModelRes :=
     match ((groups.splitOn "+").filter (· ≠ "")).mapM parseStrList with
     | some gs => ofRes (applyOp (.insertIdentical gs) tb)
     | none => .noModel
-  | ["collapsedepth", _, _, _, _] => .skip "subtree-sizes-may-be-stale"
+  | ["collapsedepth", mn, mx, rr, rt] =>
+    if !sizesOK then .skip "subtree-sizes-may-be-stale"
+    else if !(Gotree.C07.uniqueIds tb) then .skip "ids" else
+    match mn.toInt?, mx.toInt? with
+    | some a, some b => ofRes (applyOp (.collapseDepth a b (flagOf rr) (flagOf rt)) tb)
+    | _, _ => .noModel
   | ["reinit"] => ofRes (applyOp .reinit tb)
   | ["rename", olds, news] =>
     match parseStrList olds, parseStrList news with
@@ -210,8 +216,7 @@ def editOpOf (op extra : String) : Option EditOp :=
     | some a, some b => some (.collapseDepth a b (flagOf rr) (flagOf rt))
     | _, _ => none
   | ["subtree", p] => ((parsePath p).bind id).map .subTree
-  | ["outgroup", rm, strict, names] =>
-    if flagOf rm then none else (parseStrList names).map (.outgroup (flagOf strict))
+  | ["outgroup", rm, strict, names] => (parseStrList names).map (.outgroup (flagOf rm) (flagOf strict))
   | ["midpoint"] => some .midpoint
   | ["reinit"] => some .reinit
   | ["rename", olds, news] =>
@@ -238,6 +243,18 @@ def indexInSync : List String → Bool
              "rmquotes", "grafttree", "subtree", "clone"].contains n then true
     else indexInSync earlier
 
+/-- Are the subtree sizes stored on the branches (`ntaxleft/right`, read by `TopoDepth`) known to be
+    those of the tree?  Grafts and NNI change the tree without recomputing them; the listed
+    operations recompute them (ReinitIndexes / ReinitInternalIndexes); the others neither. -/
+def sizesInSync : List String → Bool
+  | [] => true
+  | op :: earlier =>
+    let n := opName op
+    if ["graftedge", "grafttree", "nni"].contains n then false
+    else if ["reinit", "prune", "reroot", "rerootfirst", "outgroup", "midpoint", "resolve", "removesingle", "collapselen",
+             "collapsesup", "collapsedepth", "removeedges", "shuffle", "identical", "merge", "subtree"].contains n then true
+    else sizesInSync earlier
+
 def handle (op : String) (f : List String) : Verdict :=
   match op, f with
   | "step", [start, ops, _k, before, outcome, wf, after, ns, ts, es, is, xs, text, extra] =>
@@ -247,13 +264,14 @@ def handle (op : String) (f : List String) : Verdict :=
     let kinds := (opl.map opName).eraseDups
     let tags0 := ["op=" ++ last]
     let inSync := indexInSync opl.dropLast.reverse
+    let sizesOK := sizesInSync opl.dropLast.reverse
     if outcome.startsWith "badrequest" then bad ("C03.step: " ++ outcome)
     else if outcome == "err" then
       -- a failed edit ends the history; nothing is promised about the tree.  Tie: the model refuses too.
       match T.undump before with
       | none => bad "C03.step before"
       | some tb =>
-        match modelOf lastOp extra inSync tb with
+        match modelOf lastOp extra inSync sizesOK tb with
         | .ok _ => ⟨.tie, tags0 ++ ["err", "err=" ++ last], "implementation refuses " ++ last ++ ", the model succeeds"⟩
         | .panic => ⟨.tie, tags0 ++ ["err", "err=" ++ last], "implementation refuses " ++ last ++ ", the model panics"⟩
         | .err => ⟨.pass, tags0 ++ ["err", "err=" ++ last, "tie-err"], ""⟩
@@ -323,10 +341,15 @@ def handle (op : String) (f : List String) : Verdict :=
         (tipEdges t).map (·.path) == ids xs
       if !tieOK then ⟨.tie, tags, "model enumerations differ from the implementation's after " ++ last⟩
       else
+      -- tie 1b: the text is what the writer model of C01 (transliteration of Node.Newick / Tree.Newick,
+      -- Go's shortest float formatting) writes for the tree α returned
+      let wtext := Gotree.Newick.writeStr Gotree.Newick.goCodec t
+      if wtext != text then ⟨.tie, tags, "after " ++ last ++ " the writer model gives " ++ wtext ++ " the implementation " ++ text⟩
+      else
       -- tie 2: obs_C03 = the exact rooted tree (child order, parent positions, all data)
       let tags := tags ++ tagIf orderSame "enum-order-exact"
       -- a renaming may change nothing but node names: the new names are read off the result
-      let mres := if isRenaming last then ofRes (applyOp (.relabel t.nodeNames) tb) else modelOf lastOp extra inSync tb
+      let mres := if isRenaming last then ofRes (applyOp (.relabel t.nodeNames) tb) else modelOf lastOp extra inSync sizesOK tb
       match mres with
       | .ok m =>
         if m.dump == after then ⟨.pass, tags ++ [if isRenaming last then "tie-exact-up-to-names" else "tie-exact"], ""⟩
